@@ -13,10 +13,16 @@
   reveal queue (Props.C09); `reveal_carried_keys` / `_outcome` / `_ready`: when the exchange completes and
   nothing is retransmitted, an empty data message carrying the whole queue goes out at once and the
   queue is empty afterwards — it does not grow with every further exchange of a silent user.
+  API level (Proofs.KeysRefine): `apiCall_keys_refine` — every API call that ends moves `conv.keys` along a
+  history of steps `KStep'` and session boundaries (`akeHasFinished`, `End`, disconnect); `runApi_bounded`: the
+  bounds survive every sequence of API calls, across sessions. For ALL sequences from a fresh conversation
+  (with panic-freedom): Props.C19Api (`api_sequence_keys_refine`, `api_c19_bounded`) — a separate module
+  because its imports (Proofs.NoPanic) and this one's (Proofs.Fixes2) can not be combined.
 -/
 
 import Proofs.Keys
 import Proofs.Fixes2
+import Proofs.KeysRefine
 namespace Otr.C19
 open Otr
 
@@ -96,5 +102,14 @@ theorem reveal_carried_keys_ready (K : Crypto) (before : AuthState) (hb : before
         { s with conv := s.conv.afterData K [] }) ∧
     (s.conv.afterData K []).keys.oldMACKeys = [] := by
   first | exact Otr.reveal_carried_keys_ready | exact @Otr.reveal_carried_keys_ready | (apply Otr.reveal_carried_keys_ready <;> assumption) | (intros; apply Otr.reveal_carried_keys_ready <;> assumption)
+
+/-- refinement, one call: every API call that ends moves `conv.keys` along a history of key-management steps and session boundaries -/
+theorem apiCall_keys_refine : type_of% @Otr.apiCall_keys_refine := @Otr.apiCall_keys_refine
+
+/-- refinement, sequences of calls from any conversation with a clean AKE key context -/
+theorem runApi_keys_refine : type_of% @Otr.runApi_keys_refine := @Otr.runApi_keys_refine
+
+/-- at most 4 counters and 4 MAC-history entries after any sequence of API calls from a bounded state, across sessions -/
+theorem runApi_bounded : type_of% @Otr.runApi_bounded := @Otr.runApi_bounded
 
 end Otr.C19
